@@ -136,3 +136,77 @@ func Local(name string) VM {
 		return false
 	}
 }
+
+// PathAddr matches the address &root.path (pointer-receiver calls on a field).
+func PathAddr(root VM, path string) VM {
+	return func(v ssa.Value) bool {
+		if _, ok := v.(*ssa.FieldAddr); !ok {
+			return false
+		}
+		return Path(root, path)(v)
+	}
+}
+
+// PathAddrFrom is PathAddr with an intermediate base (see PathFrom).
+func PathAddrFrom(base VM, path string) VM {
+	return func(v ssa.Value) bool {
+		if _, ok := v.(*ssa.FieldAddr); !ok {
+			return false
+		}
+		return PathFrom(base, path)(v)
+	}
+}
+
+// EdgeEffect: in loop lp, once the `outcome` edge of the branch matching cond is
+// taken, the iteration cannot complete without executing an instruction matching pred.
+func (c *Check) EdgeEffect(fn *ssa.Function, lp *Loop, cond VM, outcome bool, pred func(ssa.Instruction) bool, name, what string) bool {
+	if fn == nil || lp == nil {
+		return false
+	}
+	key := shortName(fn) + "|loop:" + lp.Name + "|edge-effect:" + name
+	desc := fmt.Sprintf("in loop %s: %s (%s)", lp.Name, name, what)
+	var starts []*ssa.BasicBlock
+	for _, i := range findIfs(fn, cond) {
+		if !lp.Blocks[i.Block().Index] {
+			continue
+		}
+		s := i.Block().Succs[0]
+		if !outcome {
+			s = i.Block().Succs[1]
+		}
+		starts = append(starts, s)
+	}
+	if len(starts) == 0 {
+		c.Fail("edgeeffect", key, desc, "branch not found in loop", c.W.Pos(fn.Pos()))
+		return false
+	}
+	cut := map[Edge]bool{}
+	blocked := map[int]bool{}
+	for bi := range lp.Blocks {
+		for _, ins := range fn.Blocks[bi].Instrs {
+			if pred(ins) {
+				blocked[bi] = true
+			}
+		}
+	}
+	if len(blocked) == 0 {
+		c.Fail("edgeeffect", key, desc, "effect not found in loop", c.W.Pos(fn.Pos()))
+		return false
+	}
+	for bi := range blocked {
+		for _, s := range fn.Blocks[bi].Succs {
+			cut[Edge{bi, s.Index}] = true
+		}
+	}
+	for _, st := range starts {
+		if blocked[st.Index] {
+			continue
+		}
+		if reachable(fn, st, cut)[lp.Header.Index] {
+			c.Fail("edgeeffect", key, desc, "after the branch the iteration can complete without the effect: "+describePath(c.W, fn, st, cut, lp.Header), c.W.Pos(fn.Pos()))
+			return false
+		}
+	}
+	c.OK("edgeeffect", key, desc)
+	return true
+}
